@@ -62,7 +62,7 @@ def gen(rng, tier):
             # the created handle is released again, a given one stays with the caller
             pr = enc(b"verif-absent-%d" % rng.randrange(10**6))
             cmds += ["readconfig 8 %s %s %s %s x3d x23" % (pr, enc(b"/usr/lib"), enc(rng.choice([b"foo", b""])), enc(rng.choice([b"conf", b""]))), "dump 8",
-                     rng.choice(["newkf 9 61 35", "newini 9"]), "readconfig 9 %s - %s x636f6e66 x3d x23" % (pr, enc(b"foo")), "dump 9"]
+                     rng.choice(["newkf 9 61 35", "newini 9"]), "opts 9", "readconfig 9 %s - %s x636f6e66 x3d x23" % (pr, enc(b"foo")), "dump 9"]
         obs = [False] * (len(tree) + len(extra) + len(pre)) + [True] * (len(cmds) - len(tree) - len(extra) - len(pre))
         out.append(Scenario(cmds, obs, tags=(inj,)))
     return out
